@@ -39,17 +39,17 @@ const (
 
 // ---- body steps
 const (
-	zzStepChunk    = iota // data available at once
-	zzStepPause           // the backend pauses for less than the read timeout, then sends
-	zzStepEOF             // clean end of the response
-	zzStepChunkEOF        // last data together with io.EOF (a Reader may do that)
-	zzStepStall           // the backend stops sending: Read blocks until the body is closed / request cancelled
-	zzStepReset           // connection reset mid-body
-	zzStepTruncated       // the connection is closed before the declared end of the body (io.ErrUnexpectedEOF)
+	zzStepChunk     = iota // data available at once
+	zzStepPause            // the backend pauses for less than the read timeout, then sends
+	zzStepEOF              // clean end of the response
+	zzStepChunkEOF         // last data together with io.EOF (a Reader may do that)
+	zzStepStall            // the backend stops sending: Read blocks until the body is closed / request cancelled
+	zzStepReset            // connection reset mid-body
+	zzStepTruncated        // the connection is closed before the declared end of the body (io.ErrUnexpectedEOF)
 	zzNumSteps
 	// only with PAUSES=1: longer pauses, still below the read timeout
-	zzStepPauseMid  = zzNumSteps     // 0.45 x read timeout, then data
-	zzStepPauseLong = zzNumSteps + 1 // 0.70 x read timeout, then data
+	zzStepPauseMid       = zzNumSteps     // 0.45 x read timeout, then data
+	zzStepPauseLong      = zzNumSteps + 1 // 0.70 x read timeout, then data
 	zzNumStepsWithPauses = zzNumSteps + 2
 )
 
@@ -126,12 +126,12 @@ type zzAttempt struct {
 
 // zzClient records what the client sees.
 type zzClient struct {
-	mu        sync.Mutex
-	h         http.Header
-	status    int
-	body      []byte
-	flushed   int // len(body) at the last Flush
-	started   bool
+	mu               sync.Mutex
+	h                http.Header
+	status           int
+	body             []byte
+	flushed          int // len(body) at the last Flush
+	started          bool
 	writesAfterAbort int
 }
 
@@ -386,10 +386,10 @@ func (s *zzStats) RecordConnection(ep *domain.Endpoint, d int) {
 	s.conns[ep.Name] += d
 }
 func (s *zzStats) RecordModelRequest(string, *domain.Endpoint, string, time.Duration, int64) {}
-func (s *zzStats) RecordModelError(string, *domain.Endpoint, string)                      {}
-func (s *zzStats) RecordModelTokens(string, int64, int64)                                 {}
-func (s *zzStats) RecordSecurityViolation(ports.SecurityViolation)                        {}
-func (s *zzStats) RecordDiscovery(*domain.Endpoint, bool, time.Duration)                  {}
+func (s *zzStats) RecordModelError(string, *domain.Endpoint, string)                         {}
+func (s *zzStats) RecordModelTokens(string, int64, int64)                                    {}
+func (s *zzStats) RecordSecurityViolation(ports.SecurityViolation)                           {}
+func (s *zzStats) RecordDiscovery(*domain.Endpoint, bool, time.Duration)                     {}
 
 func zzBytesEq(a, b []byte) bool {
 	if len(a) != len(b) {
@@ -538,11 +538,18 @@ func VerifEngine() {
 				gosym.Assert(gosym.VirtualNow()-answered.readTimes[len(answered.readTimes)-1] <= int64(zzReadTimeout), "C18: the stall is cut off within the read timeout")
 			}
 		}
-		if !answered.stalled && !aborted && answered.ended {
-			last := answered.script.steps[len(answered.script.steps)-1].kind
-			if last != zzStepReset && last != zzStepTruncated {
-				gosym.Assert(err == nil, "C18: a backend that only pauses for less than the read timeout is not cut off and a completed stream is delivered whole")
+		cleanScript := true
+		var all []byte
+		for _, st := range answered.script.steps {
+			if st.kind == zzStepStall || st.kind == zzStepReset || st.kind == zzStepTruncated {
+				cleanScript = false
 			}
+			all = append(all, st.data...)
+		}
+		if cleanScript && !aborted {
+			gosym.Reach("clean-stream")
+			gosym.Assert(err == nil, "C18: a backend that only pauses for less than the read timeout is not cut off")
+			gosym.Assert(zzBytesEq(cl.body, all), "C18: a completed stream is delivered whole")
 		}
 		if aborted {
 			gosym.Reach("aborted")
